@@ -1,4 +1,104 @@
-// HEADER_PLACEHOLDER
+// slice `fit_reassign`: Schedule::fit_reassign (solution/src/schedule/modifications.rs), "Tries to insert all nodes of provider's
+// segment into receiver's tour.  Nodes that causes conflcits are rejected and stay in provider's tour.  Nodes that do not cause a
+// conflict are removed from provider's tour and assigned to the receiver.", and its helper Schedule::fit_path_into_tour ("go
+// through the path that should be inserted without causing conflcits … cut the path into maximal segments that could be
+// reassigned"): BOTH verbatim bodies are verified (fit_path_into_tour: `while let` loop with `continue`, iterator chain
+// `path.iter().enumerate().map_while(..).filter(..).filter(..).last().unwrap_or(..)`, `Vec::split_off`, `Path::new_trusted`).
+//   C13  "Each schedule modification has its documented effect and nothing else: the provider loses exactly the moved nodes,
+//        the receiver gains … only the conflict-free ones without losing any of its own (fit) …, a vehicle left without
+//        activities disappears, … and all other vehicles' tours, formations elsewhere and the input schedule itself stay untouched"
+//   C10 / C03  "a vehicle is in the formation of a node exactly if its tour contains the node"
+//   C09  "cached aggregates equal recomputation" (costs, depot usage, unserved passengers, maintenance violation)
+//   C01  type clause: "a vehicle only serves departure segments whose route prescribes its own vehicle type"
+// Vocabulary in env/fit_reassign_shim.vs (it reuses env/override_reassign_shim.vs, env/update_tours_shim.vs,
+// env/train_formation_update_shim.vs).  p = provider, r = receiver, tp / tr = their old tours, P = fr_path = the nodes of the
+// offered segment in tp (what `sub_path(segment)` yields), (ntp, ntr, m) = (new_tour_provider, new_tour_receiver, moved_nodes).
+//
+// Contract of fit_path_into_tour (fit_pre / fit_outcome; tag C13.fit_path_into_tour.provider_loses_receiver_gains_only_moved_nodes):
+//   m is a duplicate-free sub-sequence of P (is_subseq: some of P's nodes in P's order);
+//   fit_provider_ok: if ntp is Some it is a tour of tp's kind over tp's network, well-formed, caches exact, its nodes are a
+//     sub-sequence of tp's nodes and exactly the nodes of tp that are not in m; ntp is None <==> every node of tp that is not in m
+//     is a depot (dummy tour: everything is moved);
+//   fit_receiver_ok: ntr is a tour of tr's kind over tr's network, well-formed (time order), caches exact; for every ACTIVITY n:
+//     n in ntr <==> n in tr or n in m ("without losing any of its own" + "gains" exactly the moved ones); every node of ntr is a
+//     node of tr or of m.  DEPOTS: a moved end depot replaces the receiver's end depot (Tour::insert_path), a dummy receiver
+//     takes no depots, a provider without activities vanishes with its depots -- hence the activity / upper-bound wording.
+//   Proved with the loop invariant fit_inv (k nodes of P decided; m is a sub-sequence of P[..k]; fit_provider_ok; fit_receiver_ok;
+//   while a path remains it is P[k..], has an activity, and is a contiguous BLOCK of the provider's current tour -- this is what
+//   makes `new_tour_provider.as_ref().unwrap()` safe: a provider emptied to None has nothing but depots left, so the remaining
+//   nodes are depots and Path::new_trusted has returned None).
+// Contract of fit_reassign on Ok(res) -- every clause is an `ensures` line of its own (on Err nothing is claimed but (4)):
+//   (4) C01.fit_reassign.refuses_incompatible_segment: fr_compatible: if r is real and p is not a real vehicle of the same type,
+//       every node of the offered segment (or_compatible, the guarantee of check_receiver_type_compatibility) and so every node
+//       the receiver's new tour has and its old tour had not is compatible with r's type;
+//       C13.fit_reassign.refuses_segment_outside_provider_tour: Ok only if the segment is a segment of tp (`sub_path(segment)?`;
+//       under the precondition below -- needed for the `unwrap`s of the type guard -- this Err is unreachable);
+//   (1) C13.fit_reassign.provider_loses_receiver_gains_only_moved_nodes:
+//       fr_tours_after: for SOME sequence m of moved nodes, (tour of p in res or none, tour of r in res, m) is an outcome of
+//         fit_path_into_tour for P (fit_outcome above); both tours stay in the map of their kind, r keeps a tour;
+//       fr_maps_after: res.vehicles == vehicles_after, res.tours == tours_after, res.dummy_tours == dummies_after (map equalities,
+//         vocabulary of env/update_tours_shim.vs: p's and r's entries rewritten, p deleted iff it has no tour left, every other
+//         key untouched (lemma_frame)) -- NO new dummy tour; lists_follow; vehicle_counter unchanged; network unchanged;
+//       C10.fit_reassign.listings_still_sorted_and_matching / ids_stay_valid;
+//   (2) formations, node by node, with fr_moved_act(n) = n is an activity of tp that p's tour in res no longer has (for every
+//       outcome this is "n is a non-depot node of m", lemma_fr_moved_act):
+//       C13.fit_reassign.formations_elsewhere_untouched: same key set; !fr_moved_act(n) ==> same formation;
+//       C10.fit_reassign.moved_nodes_provider_replaced_by_receiver: fr_moved_act(n) ==> formation == repl_seq(old, p -> r) and
+//         that replacement succeeded (repl_ok);
+//   (3) C09.fit_reassign.costs_delta_exact (or_costs_after), .depot_usage_exact (usage_exact for res),
+//       .unserved_passengers_delta_exact (fr_unserved_after: for some outcome m the exact delta un_sum over m),
+//       .maintenance_violation_exact (or_transitions_after: transitions consistent with the new tours, membership, violation ==
+//       from-scratch sum, types of neither participant untouched).
+//
+// ASSUMPTIONS introduced / used by this slice:
+//   A-stub   callees are trusted stubs with EXACTLY the contract text of the slice that verifies their body (tools/stub_sync.py: 0
+//            differences): Schedule::tour_of (depot_usage), check_receiver_type_compatibility, update_transitions_and_violation_fast
+//            (sched_guard), update_tours (update_tours), Tour::{remove, insert_path} (tour_mod); via `//@include-trusted`:
+//            env/tour_pos_fns.vs (Tour::{latest_not_reaching_node, check_removable, conflict, sub_path, …}, slice tour_pos),
+//            env/path_fns.vs (Path::new_trusted, slice path); env/tour_stubs.vs (Tour::position_of, not called here).
+//            Verified here (verbatim bodies): Schedule::{fit_reassign, fit_path_into_tour, new (text as remove_segment)},
+//            Path::{first, last, consume} (text as tour_mod), NEW Path::length, Tour::nth_node (no other slice has them).
+//   A-iter   Path::iter: stub returning SeqIter (text of slices/tour_mod.vs).  NEW external_body shims (env/fit_reassign_shim.vs)
+//            SeqIter::{enumerate, map_while, last} with the semantics of the std adapters of the same names; SeqIter::filter is
+//            the one of env/im_shim.vs.  NEW axiom_into_items_vec: `Vec::extend(Vec<T>)` appends the items of the vector
+//            (env/seqiter.vs fixes `into_items` for SeqIter only).  R5: `moved_nodes.iter().copied()` -> `.viter().copied()`;
+//            `path.iter()` in fit_path_into_tour is the stub (`//@viter-skip path`).  R12: `moved_nodes: impl Iterator` of
+//            update_tours is SeqIter<NodeIdx> (as in slices/update_tours.vs).
+//   A-derive NEW: the derived `Clone` of Tour is structural (`r == *self`): the text of env/solution_types.vs is COPIED into this
+//            slice with `//@drop-derive Clone` on `struct Tour` and an external_body `impl Clone for Tour` (Verus attaches an
+//            empty specification to a derived Clone and rejects a second one; env/solution_types.vs must not be edited).
+//   vstd     specifications of Vec::{new, split_off, len}, Option::{as_ref, unwrap, unwrap_or, is_some}, Result::{is_err, unwrap},
+//            Arc::clone, `vec!`.
+//   A-im / A-std7 / A-derive / A-display  as in slices/override_reassign.vs (env/im_shim.vs, env/depot_usage_shim.vs,
+//            env/update_tours_shim.vs, env/override_reassign_shim.vs: im::HashMap / HashSet shims incl. clone, Ord of VehicleIdx,
+//            Vehicle::clone, Display of Segment).
+//   plus the shared env: env/model_fns.vs, env/time_ops.vs, env/dist_ops.vs included trusted; env/broadcast_model.vs;
+//            env/transition_spec.vs (module `trs`).
+//   vx rewrites applied to the bodies: R5 (viter), R6 (closure parameter patterns `|(i, n)|`, `|(_, n)|`), R2 (pub).  `while let` +
+//            `continue` is accepted by Verus as is (R11 not needed); the loop carries `ensures remaining_path is None`.
+//
+// PRECONDITIONS the caller must guarantee (Schedule::fr_pre, fr_pre_outcomes; each clause is commented in the shim):
+//   * provider != receiver (update_tours / the rotation-cycle bookkeeping run once per vehicle);
+//   * C10 ids (ids_ok), part_ok(p), part_ok(r): a vehicle or a dummy of self, not both; its tour is well-formed over the schedule's
+//     network (C01 / C10), its caches are exact (C09), at most 2^17 + 2 nodes; a real vehicle has a real tour and its type has a
+//     transition;
+//   * the segment is a segment of the provider's tour that is not made of depots only (the two `unwrap`s of the type guard);
+//   * C10 listings_ok, C09 usage_exact, self.costs covers the old tours of the real participants, or_transitions_ok (C15 / C10 / C09
+//     for the rotation cycles, at most 2^17 - 2 vehicles);
+//   * A-len: |tr| + |tp| <= 2^17 + 2 (the receiver's tour stays within the length bound while it grows);
+//   * fr_pre_outcomes (caller-side): WHICH nodes fit is decided by the greedy search; for EVERY outcome (ntp, ntr, m) the contract
+//     of fit_path_into_tour admits the caller guarantees fr_fits: tfu_pre for (Some(p), self.vehicles.get(&r).cloned(), m)
+//     (slices/train_formation_update.vs), self.costs + the costs of the two new tours fit into u64, the maintenance counters of
+//     the two new tours are small (A-counter).
+//   fit_path_into_tour itself (fit_pre): both participants have well-formed tours over the schedule's network with exact caches,
+//     "Assumes that path is a sub path of the tour of provider" (a contiguous block with an activity), A-len.
+//
+// NOT covered: the GREEDY part of the documentation ("take the biggest segment that can be reassigned"): nothing is claimed about
+//   which / how many conflict-free nodes are moved (a mutant that builds `Segment::new(sub_segment_end, sub_segment_start)` and so
+//   only ever moves single nodes still satisfies the contract); that every moved node really was conflict-free in tr is covered
+//   only through "the receiver loses no activity"; on Err nothing is claimed except (4) (not WHEN the formation update refuses);
+//   provider == receiver; depots: see fit_receiver_ok; that the callers establish the preconditions; the input schedule `self` is
+//   `&self` (untouched by the type system).
 #![feature(allocator_api)]
 use vstd::prelude::*;
 use std::ops::Add;
@@ -330,20 +430,20 @@ use self::trs::*;
 //@before "path.iter()"
                         proof { assert(self.network.has(blocker)); }
 //@before "let mut node_sequence"
-            assert(end_pos < r0.len() && sub_segment_end == r0[end_pos as int]);
+            assert(end_pos < r0.len() && sub_segment_end == r0[end_pos as int]); // @obl C13.fit_path_into_tour.provider_loses_receiver_gains_only_moved_nodes
 //@before "let sub_segment ="
             let ghost c = node_sequence@;
             proof {
-                assert(c == r0.subrange(0, end_pos + 1));
+                assert(c == r0.subrange(0, end_pos + 1)); // @obl C13.fit_path_into_tour.provider_loses_receiver_gains_only_moved_nodes
                 lemma_fit_chunk(self, pn, provider, rcv, ntp0, ntr0, m0, Some(r0), k0, end_pos as int);
-                lemma_fit_skip(self, pn, provider, rcv, ntp0, ntr0, m0, Some(r0), k0, end_pos as int, opt_nodes(remaining_path));
+                lemma_fit_skip(self, pn, provider, rcv, ntp0, ntr0, m0, Some(r0), k0, end_pos as int, opt_nodes(remaining_path)); // @obl C13.fit_path_into_tour.provider_loses_receiver_gains_only_moved_nodes
                 k = k0 + end_pos + 1;
             }
 //@before "let (receiver, _)"
             proof {
                 lemma_remove_block(&ntp0.unwrap(), ntp0.unwrap().index_of(r0[0]), ntp0.unwrap().index_of(r0[end_pos as int]));
                 assert(path_for_insertion.node_sequence@ == c);
-                assert(no_conflict(&ntr0, c));
+                assert(no_conflict(&ntr0, c)); // @obl C13.fit_path_into_tour.provider_loses_receiver_gains_only_moved_nodes
             }
 //@before "moved_nodes.extend"
             let ghost ns = node_sequence;
@@ -351,11 +451,11 @@ use self::trs::*;
             proof {
                 axiom_into_items_vec::<NodeIdx>(ns);
                 assert(moved_nodes@ == m0 + c);
-                assert(inserted(&ntr0, c, new_tour_receiver.nodes@));
-                lemma_fit_move(self, pn, provider, rcv, ntp0, ntr0, m0, Some(r0), k0, end_pos as int, opt_nodes(remaining_path), new_tour_provider, new_tour_receiver);
+                assert(inserted(&ntr0, c, new_tour_receiver.nodes@)); // @obl C13.fit_path_into_tour.provider_loses_receiver_gains_only_moved_nodes
+                lemma_fit_move(self, pn, provider, rcv, ntp0, ntr0, m0, Some(r0), k0, end_pos as int, opt_nodes(remaining_path), new_tour_provider, new_tour_receiver); // @obl C13.fit_path_into_tour.provider_loses_receiver_gains_only_moved_nodes
             }
 //@before "(new_tour_provider, new_tour_receiver, moved_nodes)"
-        proof { lemma_fit_done(self, pn, provider, rcv, new_tour_provider, new_tour_receiver, moved_nodes@, k); }
+        proof { lemma_fit_done(self, pn, provider, rcv, new_tour_provider, new_tour_receiver, moved_nodes@, k); } // @obl C13.fit_path_into_tour.provider_loses_receiver_gains_only_moved_nodes
 //@end
 
 // ---- the function under contract ------------------------------------------------------------------------------
